@@ -863,6 +863,10 @@ func (p *postState) read(comp, srt, ref string) string {
 	}
 	cur := r.heap.get(p.st, comp, srt)
 	val := ite(refLt(ref, p.pre.alloc), sel(cur, ref), sel(cf, ref))
+	if mentionsBound(ref) {
+		// inside a quantifier: the same function of the reference, but nothing can be named or recorded
+		return val
+	}
 	key := comp + "|" + ref
 	if !p.seen[key] {
 		p.seen[key] = true
